@@ -97,9 +97,13 @@ func (e *rxEnv) feedPacket(tok string) bool {
 	if len(f) != 2 {
 		return false
 	}
-	if f[0] == "h" {
+	if f[0] == "h" || f[0] == "H" { // header-only packet; H: with the end-of-message status (as a PROTACK carries it)
 		t, _ := strconv.Atoi(f[1])
-		e.ch.WritePacket(&tds.Packet{Header: tds.PacketHeader{MsgType: tds.PacketHeaderType(t), Length: 8}})
+		st := tds.PacketHeaderStatus(0)
+		if f[0] == "H" {
+			st = tds.TDS_BUFSTAT_EOM
+		}
+		e.ch.WritePacket(&tds.Packet{Header: tds.PacketHeader{MsgType: tds.PacketHeaderType(t), Status: st, Length: 8}})
 		return true
 	}
 	body := unhx(f[1])
@@ -308,6 +312,10 @@ func rxOracleC02(line, out string) string {
 	var body []byte
 	for i, t := range f[3:] {
 		p := strings.Split(t, ":")
+		if len(p) == 2 && (p[0] == "h" || p[0] == "H") && len(body) == 0 {
+			ref = append(ref, t) // a header-only packet between messages stays where it is
+			continue
+		}
 		if len(p) != 2 || (p[0] != "b0" && p[0] != "b1") {
 			return ""
 		}
@@ -401,6 +409,16 @@ func c02Gen(tier string, rng *rand.Rand, emit func(Case)) {
 			}
 			toks = append(toks, cutTokens(body, cuts)...)
 		}
+		if rng.Intn(2) == 0 { // a header-only packet (with or without the EOM status) in front of a response
+			at := 0
+			for k, t := range toks {
+				if strings.HasPrefix(t, "b1:") && rng.Intn(2) == 0 {
+					at = k + 1
+				}
+			}
+			ho := []string{"H:11", "h:11", "H:15"}[rng.Intn(3)]
+			toks = append(append(append([]string{}, toks[:at]...), ho), toks[at:]...)
+		}
 		emit(Case{Line: fmt.Sprintf("rx %d %d %s", rng.Intn(2), rng.Intn(2), strings.Join(toks, " ")), Kind: "history"})
 	}
 	// header-only packets interleaved
@@ -475,6 +493,9 @@ func resultSetResponse(rng *rand.Rand, rowFields [][]string) []byte {
 	body = append(body, ctx...)
 	if rng.Intn(3) == 0 { // a message between the format and its data must not break the data
 		body = append(body, rEED(2000+rng.Intn(100), rng.Intn(2) == 0, "note\n").bytes...)
+	}
+	if rng.Intn(4) == 0 { // nor must an environment change (it is consumed by the channel, not recorded)
+		body = append(body, rEnv([3]string{"\x01", "db" + strconv.Itoa(rng.Intn(9)), "master"}).bytes...)
 	}
 	for r := 0; r < 1+rng.Intn(3); r++ {
 		body = append(body, row...)
